@@ -1,1 +1,2 @@
 
+import Proofs.TrainMetrics
